@@ -138,11 +138,17 @@ def c01 (h : H) : List String :=
         let replies := (writes h ep).filter fun (_, f) => f.kind == .resp && f.seq = rf.seq
         if replies.length > 1 then some "C01:more-than-one-reply"
         else
+          let oversize := h.any fun e => match e with
+            | .replyerr ep' q "toobig" => ep' == ep && q == rf.seq
+            | _ => false
           match handlerEnd h ep hd, endOf h o.c with
           | some (_, _, _, false), some (_, out, _) =>
-            if undisturbed h ∧ (out == .ok || out == .app) ∧ replies.length = 0 then some "C01:reply-missing"
-            else if undisturbed h ∧ out != .canceled ∧ out != .deadline ∧ replies.length = 0 then
-              some "C01:reply-missing"
+            if undisturbed h ∧ out != .canceled ∧ out != .deadline ∧ replies.length = 0 then
+              some (if oversize then "C01:reply-missing:result-too-large-for-a-frame" else "C01:reply-missing")
+            else none
+          | some (_, _, _, false), none =>
+            if undisturbed h ∧ replies.length = 0 then
+              some (if oversize then "C01:reply-missing:result-too-large-for-a-frame" else "C01:reply-missing")
             else none
           | _, _ => none)
 
@@ -186,10 +192,16 @@ def c08 (h : H) : List String :=
           | some (ih, _, _, _) => if ih < st then none else some "C08:cancel-did-not-reach-handler"
           | none => some "C08:cancel-did-not-reach-handler"
       | none => none) ++
+  -- a call whose context ended must have returned by the time the session settled
   (os.filterMap fun o =>
+    let ctxEnded := (idxd h).any fun (i, e) => match e with
+      | .cx c => c == o.c && decide (i < st)
+      | _ => false
     match endOf h o.c with
-    | some (i, _, _) => if i < st then none else some "C08:call-returned-late"
-    | none => none)
+    | some (i, out, _) =>
+      if i < st then none
+      else if ctxEnded || out == .deadline then some "C08:cancelled-call-returned-late" else none
+    | none => if ctxEnded then some "C08:cancelled-call-returned-late" else none)
 
 /-! ### C09 — a handler's context is cancelled only for its own cancellation or on close -/
 
@@ -232,16 +244,28 @@ def c10 (h : H) : List String :=
 /-! ### C11 — everything released -/
 
 def c11 (h : H) : List String :=
-  h.filterMap fun e => match e with
+  (idxd h).filterMap fun (i, e) => match e with
     | .leak f => some ("C11:leak:" ++ f)
-    | .pend _ n => if n = 0 then none else some "C11:pending-table-not-empty"
+    | .pend ep n =>
+      -- calls of this endpoint that are still outstanding when the table is read
+      let outstanding := ((ops h).filter fun o => o.ep = ep && isCallKind o.kind &&
+        (match endOf h o.c with
+         | some (j, _, _) => decide (j > i)
+         | none => true)).length
+      if n ≤ outstanding then none else some "C11:pending-table-holds-a-returned-call"
     | _ => none
 
 /-! ### C12 — no write into the result buffer after the call returned -/
 
 def c12 (h : H) : List String :=
   h.filterMap fun e => match e with
-    | .late _ => some "C12:late-write"
+    | .late c =>
+      let ep := match (ops h).find? (fun o => o.c = c) with | some o => o.ep | none => 0
+      let dup := h.any fun e' => match e' with | .inj ep' "dupresp" => ep' == ep | _ => false
+      match endOf h c with
+      | some (_, .ok, _) | some (_, .app, _) =>
+        some (if dup then "C12:late-write:duplicated-reply" else "C12:late-write:after-return-with-reply")
+      | _ => some "C12:late-write:returned-without-waiting-for-the-reply"
     | _ => none
 
 /-! ### C13 — order, distinct seqnos, exact send notifier -/
@@ -309,7 +333,10 @@ def c20 (h : H) : List String :=
       match os.find? (fun o => o.nonce = n), handlerEnd h ep' hd with
       | some o, some _ => if isCallKind o.kind then some (typeName o.kind o.ctype ++ " p." ++ o.meth) else none
       | _, _ => none
-    let expected := client ++ cancels ++ served
+    let injected := h.filterMap fun e => match e with
+      | .inj ep' "nfcall" => if ep' = ep then some "Call p.nope" else none
+      | _ => none
+    let expected := client ++ cancels ++ served ++ injected
     let tags := (expected ++ recs.map (·.1)).eraseDups
     (tags.filterMap fun t =>
       let e := count expected t
@@ -327,7 +354,9 @@ def c20 (h : H) : List String :=
         | some (_, pf) =>
           let t := typeName o.kind o.ctype ++ " p." ++ o.meth
           let sizes := (recs.filter fun (t', _) => t' == t).map (·.2)
-          if sizes.contains (rf.total + pf.content) then none else some "C20:size-differs"
+          let dups := (h.filter fun e => match e with | .inj ep' "dupresp" => ep' == ep | _ => false).length
+          if (List.range (dups + 1)).any (fun k => sizes.contains (rf.total + (k + 1) * pf.content)) then none
+          else some "C20:size-differs"
       | _, _ => none)
 
 /-! ### C07 — lifecycle observers agree -/
